@@ -58,24 +58,24 @@ class Formula(BooleanLogics.Formula):
 
         for phi in subformulas:
             if isinstance(phi, bool):
-                self._subformula.append(Lang.Bool(phi))
+                phi = Lang.Bool(phi)
             else:
                 if isinstance(phi, str):
-                    self._subformula.append(Lang.AtomicProposition(phi))
-                else:
-                    if not isinstance(phi, FormulaClass):
-                        if (isinstance(phi, Lang.Formula) or
-                                not isinstance(phi, Formula)):
+                    phi = Lang.AtomicProposition(phi)
 
-                            raise TypeError(err_msg(phi))
+            if not isinstance(phi, FormulaClass):
+                if (isinstance(phi, Lang.Formula) or
+                        not isinstance(phi, Formula)):
 
-                        phi = phi.cast_to(Lang)
+                    raise TypeError(err_msg(phi))
 
-                        if not isinstance(phi, FormulaClass):
-                            raise TypeError(err_msg(phi))
+                phi = phi.cast_to(Lang)
 
-                    self._subformula.append(phi)
-                    self.height = max(self.height, phi.height+1)
+                if not isinstance(phi, FormulaClass):
+                    raise TypeError(err_msg(phi))
+
+            self._subformula.append(phi)
+            self.height = max(self.height, phi.height+1)
 
     def cast_to(self, Lang):
         r''' Casts the current object in a formula of a different class.
